@@ -76,8 +76,20 @@ class _Renamer(ast.NodeTransformer):
     visit_ClassDef = visit_FunctionDef
 
     def _comp(self, node):
-        # a comprehension is its own scope; only the first iterable is evaluated in the enclosing scope
-        node.generators[0].iter = self.visit(node.generators[0].iter)
+        # a comprehension is its own scope for its targets; everything else it reads belongs to the enclosing scope
+        bound = set()
+        for g in node.generators:
+            for t in ast.walk(g.target):
+                if isinstance(t, ast.Name):
+                    bound.add(t.id)
+        inner = type(self)(self.names - bound)
+        for g in node.generators:
+            g.iter = inner.visit(g.iter)
+            g.ifs = [inner.visit(i) for i in g.ifs]
+        node.generators[0].iter = node.generators[0].iter
+        for f in ("elt", "key", "value"):
+            if hasattr(node, f):
+                setattr(node, f, inner.visit(getattr(node, f)))
         return node
 
     visit_ListComp = visit_SetComp = visit_DictComp = visit_GeneratorExp = _comp
@@ -111,6 +123,71 @@ def t_rename(tree, src):
         names = _own_locals(tab) - _child_free(tab)
         names = {n for n in names if not n.startswith("__") and (n + "_r") not in body_names}
         r = _Renamer(names)
+        fn.body = [r.visit(st) for st in fn.body]
+    return tree
+
+
+_KEYWORDS_USED = None
+
+
+def _keywords_used():
+    """every keyword-argument name used in any call of the package, its tests and ipynb-free examples"""
+    global _KEYWORDS_USED
+    if _KEYWORDS_USED is None:
+        kws = set()
+        for top in (os.path.join("/repo", PKG), "/repo/test"):
+            for root, _d, files in os.walk(top):
+                for f in files:
+                    if f.endswith(".py"):
+                        try:
+                            tr = ast.parse(open(os.path.join(root, f)).read())
+                        except SyntaxError:
+                            continue
+                        for n in ast.walk(tr):
+                            if isinstance(n, ast.Call):
+                                kws.update(k.arg for k in n.keywords if k.arg)
+        _KEYWORDS_USED = kws
+    return _KEYWORDS_USED
+
+
+def t_renameparams(tree, src):
+    """positional parameters that are never passed by keyword anywhere get the suffix `_p` (plus the local renaming)"""
+    tree = t_rename(tree, src)
+    src2 = ast.unparse(ast.fix_missing_locations(tree))
+    tree = ast.parse(src2)
+    top = symtable.symtable(src2, "<m>", "exec")
+    tables = {}
+
+    def collect(t):
+        for ch in t.get_children():
+            if ch.get_type() == "function":
+                tables.setdefault((ch.get_name(), ch.get_lineno()), ch)
+            collect(ch)
+    collect(top)
+    kws = _keywords_used()
+    for fn in ast.walk(tree):
+        if not isinstance(fn, (ast.FunctionDef, ast.AsyncFunctionDef)):
+            continue
+        tab = tables.get((fn.name, fn.lineno))
+        if tab is None:
+            continue
+        body_names = {n.id for n in ast.walk(fn) if isinstance(n, ast.Name)}
+        if body_names & {"locals", "exec", "eval", "vars"}:
+            continue
+        args = fn.args.posonlyargs + fn.args.args
+        skip_first = bool(args) and args[0].arg in ("self", "cls")
+        cand = {a.arg for a in args[1 if skip_first else 0:]} - kws - _child_free(tab)
+        cand = {n for n in cand if (n + "_p") not in body_names}
+        for a in args:
+            if a.arg in cand:
+                a.arg = a.arg + "_p"
+
+        class PR(_Renamer):
+            def visit_Name(self, node):
+                if node.id in self.names:
+                    node.id = node.id + "_p"
+                return node
+        r = PR(cand)
         fn.body = [r.visit(st) for st in fn.body]
     return tree
 
@@ -193,7 +270,7 @@ def t_reorder(tree, src):
     return tree
 
 
-TRANSFORMS = {"unparse": t_unparse, "rename": t_rename, "flipif": t_flipif, "rettemp": t_rettemp,
+TRANSFORMS = {"unparse": t_unparse, "rename": t_rename, "renameparams": t_renameparams, "flipif": t_flipif, "rettemp": t_rettemp,
               "docstring": t_docstring, "reorder": t_reorder}
 
 
